@@ -1,5 +1,9 @@
 """C11 - Config and weight round-trips reproduce the same function."""
 import itertools
+import os
+import shutil
+import tempfile
+import warnings
 import json
 from fractions import Fraction
 
@@ -444,7 +448,65 @@ def case_functional_premade(**p):
     same = all(np.array_equal(x, y) for x, y in zip(a.get_weights(), b.get_weights()))
     case.record('set_weights-get_weights-round-trip[%s]' % label, 'unsat' if same else 'sat', kind='structural', witness={}, replay=None,
                 sig=dict(query='weights', label=label), note='executed')
+    # saving and reloading (the file I/O is executed; what is loaded is compared symbolically): same config, same stored
+    # values, same function of the variables, same constraint attached to every variable
+    for fmt in ('h5', 'keras'):
+      tag = '%s,%s' % (label, fmt)
+      d = tempfile.mkdtemp(prefix='vf_c11_', dir='/tmp')
+      try:
+        path = os.path.join(d, 'model.' + fmt)
+        with warnings.catch_warnings():
+          warnings.simplefilter('ignore')
+          a.save(path)
+          c = keras.models.load_model(path, custom_objects=co)
+      except Exception as e:  # pylint: disable=broad-except
+        case.record('model-saves-and-reloads[%s]' % tag, 'sat', kind='structural', witness={}, replay=dict(fn='premade-reload', label=label, fmt=fmt),
+                    sig=dict(query='reload', label=label), note='%s: %s' % (type(e).__name__, str(e)[:160]))
+        continue
+      finally:
+        shutil.rmtree(d, ignore_errors=True)
+      r_ = _reload_compare(a, c)
+      case.record('reloaded-model-has-equal-config-weights-and-constraints[%s]' % tag, 'sat' if r_['reproduced'] else 'unsat', kind='structural',
+                  witness={}, replay=dict(fn='premade-reload', label=label, fmt=fmt), sig=dict(query='reload', label=label), note=str(r_['detail'])[:200])
+      if r_['reproduced']:
+        continue
+      tc = Traced(lambda *xs: c(list(xs)), [tf.TensorSpec([1, 1], tf.float32)] * nin, name=label + '-reloaded')
+      vc = tc.variables
+      bynm = {y.name: y for y in vc}
+      sym.new_ctx()
+      vva2, vvc, wit2 = {}, {}, {}
+      for i, u in enumerate(va):
+        v = bynm.get(u.name, vc[i])
+        s_ = sym.symbolic('v%d' % i, tuple(u.shape))
+        vva2[u.ref()] = s_
+        vvc[v.ref()] = s_
+        wit2['v%d' % i] = s_
+      xs2 = [sym.symbolic('x%d' % i, (1, 1)) for i in range(nin)]
+      (oa2,) = ta.sym_run(*xs2, var_values=vva2)
+      (oc,) = tc.sym_run(*xs2, var_values=vvc)
+      flat = lambda outs: np.asarray(outs[0]).reshape(-1)
+      case.identity('reloaded-model-computes-identical-outputs[%s]' % tag,
+                    list(zip(np.asarray(oa2, dtype=object).reshape(-1), np.asarray(oc, dtype=object).reshape(-1))),
+                    witness=dict(wit2, **{'x%d' % i: x for i, x in enumerate(xs2)}), timeout=120, sig=dict(query='reload-functional', label=label),
+                    inline_replay=lambda m, tc=tc, xs2=xs2, vva2=vva2, vvc=vvc: core.compare_tf(m, [(ta, xs2, vva2, flat), (tc, xs2, vvc, flat)]))
   return case
+
+
+def _reload_compare(a, c):
+  d = _cfg_diff(a.get_config(), c.get_config())
+  if d:
+    return dict(reproduced=True, detail='config: ' + d)
+  wa, wc = a.get_weights(), c.get_weights()
+  if len(wa) != len(wc) or not all(x.shape == y.shape and np.array_equal(x, y) for x, y in zip(wa, wc)):
+    return dict(reproduced=True, detail='stored weight values differ after reload')
+  ca = {v.name: (_cfg_norm(v.constraint.get_config()) if v.constraint is not None and hasattr(v.constraint, 'get_config') else None,
+                 type(v.constraint).__name__) for v in a.weights}
+  cc = {v.name: (_cfg_norm(v.constraint.get_config()) if v.constraint is not None and hasattr(v.constraint, 'get_config') else None,
+                 type(v.constraint).__name__) for v in c.weights}
+  if ca != cc:
+    bad = [k for k in ca if ca.get(k) != cc.get(k)]
+    return dict(reproduced=True, detail='constraint of %s differs after reload: %s vs %s' % (bad[:1], ca.get(bad[0]) if bad else None, cc.get(bad[0]) if bad else None))
+  return dict(reproduced=False, detail='identical')
 
 
 def replay(r):
@@ -518,6 +580,22 @@ def replay(r):
           b = type(a).from_config(a.get_config(), custom_objects=co)
       except Exception as e:  # pylint: disable=broad-except
         return dict(reproduced=True, detail='%s: %s' % (type(e).__name__, str(e)[:200]))
+      if rp['fn'] == 'premade-reload':
+        import os, shutil, tempfile, warnings
+        d = tempfile.mkdtemp(prefix='vf_c11_', dir='/tmp')
+        try:
+          path = os.path.join(d, 'model.' + rp['fmt'])
+          w0 = [np.arange(int(np.prod(w_.shape)), dtype=np.float32).reshape(w_.shape) / 8.0 for w_ in a.get_weights()]
+          a.set_weights(w0)
+          with warnings.catch_warnings():
+            warnings.simplefilter('ignore')
+            a.save(path)
+            c = keras.models.load_model(path, custom_objects=co)
+        except Exception as e:  # pylint: disable=broad-except
+          return dict(reproduced=True, detail='%s: %s' % (type(e).__name__, str(e)[:200]))
+        finally:
+          shutil.rmtree(d, ignore_errors=True)
+        return _reload_compare(a, c)
       if rp['fn'] == 'premade-config':
         ca, cb = a.get_config(), b.get_config()
         with keras.utils.custom_object_scope(co):
